@@ -53,7 +53,8 @@ deriving DecidableEq, Repr, Inhabited
 /-- one iteration of hwloc__xml_export_cpukinds -/
 def exportKind (k : Kind) : Elem :=
   .mk tagCpukind
-    ([(b "cpuset", setText k.cpuset)] ++ (if k.eff ≠ -1 then [(b "forced_efficiency", Xml.printInt k.eff)] else []))
+    ([(b "cpuset", setText k.cpuset)] ++
+      (if k.eff ≠ -1 then [(b "forced_efficiency", (Xml.printInt k.eff).take 10)] else []))     -- char tmp[11]; snprintf(tmp, 11, "%d")
     none (k.infos.map infoElem)
 
 def exportKinds (l : List Kind) : List Elem := l.map exportKind
@@ -86,8 +87,10 @@ def importKind (e : Elem) : Res Kind :=
       | none => .reject                    -- "ignoring cpukind without cpuset": goto error
       | some m => .ok { cpuset := m, eff := ce.2, infos := infos }))
 
-/-- forced_efficiency fits the `%d` buffer of the exporter (char tmp[11]: 10 characters) and `int` -/
-def kindValid (k : Kind) : Bool := decide (-1 ≤ k.eff) && decide (k.eff < 2 ^ 31)
+/-- forced_efficiency is an `int` whose `%d` text fits the buffer of the exporter (char tmp[11]: 10 characters; only values below
+    -99999999 do not, and hwloc_cpukinds_register stores nothing below -1) -/
+def kindValid (k : Kind) : Bool :=
+  decide (-(2 : Int) ^ 31 ≤ k.eff) && decide (k.eff < 2 ^ 31) && decide ((Xml.printInt k.eff).length ≤ 10)
 
 def normKind (k : Kind) : Kind := { k with infos := k.infos.map sanPair }
 
@@ -275,6 +278,24 @@ def setValue (ts : List MTarget) (c : Call) : List MTarget :=
 
 def rebuild (cs : List Call) : List MTarget := cs.foldl setValue []
 
+/-- the hypotheses under which the calls rebuild the exported array: the targets of an attribute are pairwise different objects
+    (hwloc__memattr_get_target never creates a second entry for one object), and with NEED_INITIATOR every target has at least one
+    initiator (a target without any is not written at all) and its initiators are pairwise different locations -/
+def distinctKeys : List MTarget → Bool
+  | [] => true
+  | t :: l => !(l.any (fun u => u.type == t.type && u.gp == t.gp)) && distinctKeys l
+
+def distinctInits : List (Init × Nat) → Bool
+  | [] => true
+  | iv :: l => !(l.any (fun x => x.1 == iv.1)) && distinctInits l
+
+def memAttrWF (a : MemAttr) : Bool :=
+  distinctKeys a.targets && (!needInit a.flags || a.targets.all (fun t => !t.inits.isEmpty && distinctInits t.inits))
+
+/-- what export + import keeps of one target: the initiator array when the attribute needs initiators, else the single value -/
+def normTarget (flags : Nat) (t : MTarget) : MTarget :=
+  if needInit flags then { t with value := 0 } else { t with inits := [] }
+
 /-! ### distances -/
 
 /-- one hwloc_internal_distances_s after hwloc_internal_distances_refresh -/
@@ -311,10 +332,15 @@ def hetItem (ti : Nat × Nat) : Bytes := TypeStr.typeString ti.1 ++ [58] ++ decD
 /-- HWLOC_DIST_TYPE_USE_OS_INDEX -/
 def useOsIndex (t : Nat) : Bool := t == tPU || t == tNUMA
 
+/-- the `name` attribute: through hwloc__xml_export_safestrdup, only when there is a name -/
+def nameAttr : Option Bytes → List (Bytes × Bytes)
+  | some s => [(b "name", Xml.sanitize s)]
+  | none => []
+
 /-- hwloc___xml_v2export_distances, v3 flags (no HOPS → LATENCY rewriting) -/
 def exportDist (d : Dist) : Elem :=
   let n := d.nbobjs
-  let nameA := match d.name with | some s => [(b "name", Xml.sanitize s)] | none => []
+  let nameA := nameAttr d.name
   match d.types with
   | some ts =>
     .mk tagDistHetero ([(b "nbobjs", decDigits n), (b "kind", decDigits d.kind)] ++ nameA) none
